@@ -236,3 +236,21 @@ def _branch_marks(spec, model):
     except Exception as exc:
         bad.append({'desorption_only_isotherm': f"{type(exc).__name__}: {exc}"[:160]})
     return {'confirmed': bool(bad), 'observed': bad, 'expected': 'fit on the marked points of the requested branch'}
+
+
+@replayer('c12.bounds_history')
+def _bounds_history(spec, model):
+    """real fits: exact Langmuir data fitted with default bounds, then other data with user bounds, then the first fit again"""
+    import pygaps
+    pygaps.logger.disabled = True
+    META = dict(material='pgv_c12', adsorbate='nitrogen', temperature=77.355, pressure_mode='absolute', pressure_unit='bar', loading_basis='molar',
+                loading_unit='mmol', material_basis='mass', material_unit='g', temperature_unit='K')
+    p = numpy.linspace(0.05, 5, 30)
+    l = 5.0 * 0.8 * p / (1 + 0.8 * p)
+    first = pygaps.ModelIsotherm(pressure=p, loading=l, model='Langmuir', **META).model.params
+    pygaps.ModelIsotherm(pressure=p, loading=3.0 * 0.2 * p / (1 + 0.2 * p), model='Langmuir', param_bounds={'K': (0, 0.5), 'n_m': (0, 100)}, **META)
+    again_iso = pygaps.ModelIsotherm(pressure=p, loading=l, model='Langmuir', **META)
+    again = again_iso.model.params
+    same = all(abs(first[k] - again[k]) <= 1e-6 * abs(first[k]) for k in first)
+    return {'confirmed': not same, 'observed': {'first fit': {k: float(v) for k, v in first.items()}, 'same fit after a user-bounded fit': {k: float(v) for k, v in again.items()},
+                                                 'bounds in force': str(again_iso.model.param_bounds)}, 'expected': 'identical fits under the default bounds'}
